@@ -403,7 +403,9 @@ func grpcGunExtra(t *tr) string {
 	var b strings.Builder
 	many := ggLoadMany("github.com/yandex/pandora/components/providers/grpc", "github.com/yandex/pandora/components/guns/grpc", "github.com/yandex/pandora/components/guns/grpc/scenario",
 		"github.com/yandex/pandora/components/providers/grpc/grpcjson", "github.com/yandex/pandora/examples/grpc/server",
-		"github.com/yandex/pandora/components/providers/scenario/grpc", "github.com/yandex/pandora/components/providers/scenario/grpc/postprocessor")
+		"github.com/yandex/pandora/components/providers/scenario/grpc", "github.com/yandex/pandora/components/providers/scenario/grpc/postprocessor",
+		"github.com/yandex/pandora/components/providers/scenario", "github.com/yandex/pandora/components/providers/scenario/config",
+		"github.com/yandex/pandora/lib/mp", "github.com/yandex/pandora/lib/math", "github.com/yandex/pandora/components/grpc/import")
 	ap := many["github.com/yandex/pandora/components/providers/grpc"]
 	gp := many["github.com/yandex/pandora/components/guns/grpc"]
 	sp := many["github.com/yandex/pandora/components/guns/grpc/scenario"]
@@ -618,6 +620,8 @@ func grpcGunExtra(t *tr) string {
 	b.WriteString(grpcgunNetExtra(t, gp, sp))
 	b.WriteString(grpcgunFeedExtra(t, gp, sp, jp, many["github.com/yandex/pandora/components/providers/scenario/grpc"],
 		many["github.com/yandex/pandora/components/providers/scenario/grpc/postprocessor"]))
+	b.WriteString(grpcgunR4Extra(t, many))
+	b.WriteString(grpcgunSymExtra(t, many))
 
 	// ---- config tags
 	if st := ggStruct(gp, "GunConfig"); st != nil {
